@@ -26,7 +26,7 @@ m = dict(
     version=1,
     setup_cmd="./check --setup",
     hooks=dict(guard="verif", enable="none needed: every observation point is public API; checks build /repo as it is",
-               baseline_off_cmd="cd /repo && go test -vet=off -count=1 ./...", source_commits=[], add_only=True),
+               baseline_off_cmd="cd /repo && GOFLAGS=-mod=mod GOPROXY=off go test -vet=off -count=1 -timeout 25m ./...", source_commits=[], add_only=True),
     engines=[dict(name="rapid-harness", path="/verif/harness", serves_properties=[c["property_id"] for c in checks],
                   kind_free_text="Go module with pgregory.net/rapid v1.3.0 property tests (generators, reference model, stateful sequences, fault injection), native go fuzzing legs, go test -race for C11; driven by /verif/check")],
     checks=checks,
